@@ -389,6 +389,10 @@ class Tally:
         for cls, other in cfg.get("foreign_classes", {}).items():
             if any(f["cls"] == cls for f in load_findings(other)):
                 self.foreign[cls] = other
+        # clauses of ANOTHER property judged by the same verdict function (suite shared by two
+        # properties): such a `fail` is not a failing input of THIS property; when the model also
+        # disagrees with the implementation on that line the correspondence is broken (-> disagree)
+        self.foreign_clauses = cfg.get("foreign_clauses", {})
 
     def feed(self, ops_path, ver_path, keep_samples=4):
         with open(ops_path) as fo, open(ver_path) as fv:
@@ -423,6 +427,12 @@ class Tally:
                         # a clause of ANOTHER property evaluated in this suite (listed there as an
                         # open finding): counted, neither a violation nor a finding of this property
                         self.foreign_seen[cls] = self.foreign_seen.get(cls, 0) + 1
+                    elif v.startswith("fail") and len(v.split(" ")) > 1 and v.split(" ")[1] in self.foreign_clauses:
+                        if "model-agrees=no" in v:
+                            self.disagree.append((op, v))
+                        else:
+                            key = "clause:" + v.split(" ")[1]
+                            self.foreign_seen[key] = self.foreign_seen.get(key, 0) + 1
                     elif v.startswith("fail"):
                         self.fails.append((op, v))
                     else:
@@ -627,7 +637,7 @@ def main():
                 "model_impl_disagreements": len(tally.disagree),
                 "property_failures": len(tally.fails),
                 "known_finding_cases": tally.known,
-                "other_property_finding_cases": {f"{k} (open finding of {tally.foreign[k]})": v for k, v in tally.foreign_seen.items()},
+                "other_property_finding_cases": {(f"{k} (open finding of {tally.foreign[k]})" if k in tally.foreign else f"{k} (a clause of {tally.foreign_clauses.get(k.split(':', 1)[-1], '?')}, judged there)"): v for k, v in tally.foreign_seen.items()},
                 "notes": tally.notes[:20],
                 "exhaustive": bool(cfg.get("exhaustive", {}).get(tier, False)),
                 "explanation": cfg.get("explanation", ""),
